@@ -536,9 +536,9 @@ fn body(ctx: &Ctx) -> (Summary, Meta) {
         ("Ix0", vec![vec![]]),
         ("Ix1", vec![vec![3], vec![0], vec![1], vec![9]]),
         ("Ix2", vec![vec![2, 2], vec![2, 0], vec![1, 3], vec![3, 3]]),
-        ("Ix3", vec![vec![2, 1, 2], vec![0, 2, 1]]),
-        ("Ix4", vec![vec![2, 1, 1, 2]]),
-        ("dyn", vec![vec![], vec![3], vec![0], vec![9], vec![2, 2], vec![2, 1, 2], vec![2, 1, 1, 2], vec![1, 2, 1, 1, 2]]),
+        ("Ix3", vec![vec![2, 1, 2], vec![0, 2, 1], vec![2, 3, 2], vec![3, 2, 1]]),
+        ("Ix4", vec![vec![2, 1, 1, 2], vec![2, 2, 1, 3]]),
+        ("dyn", vec![vec![], vec![3], vec![0], vec![9], vec![2, 2], vec![2, 1, 2], vec![2, 1, 1, 2], vec![1, 2, 1, 1, 2], vec![2, 3, 2], vec![3, 2, 2, 2]]),
     ];
     let base = [4usize, 2, 3, 2, 1, 2, 2, 1, 1, 1, 2, 1, 1, 1, 1, 1, 1, 1, 1, 1, 1];
     let mut cases = vec![];
